@@ -71,7 +71,8 @@ pub mod lab {
     pub const DROP_WHILE_UNWINDING: u32 = 54;
     pub const MAKEMUT_STORED: u32 = 55;
     pub const ALLOC_FAILURE_SURVIVED: u32 = 56;
-    pub const NAMES: [&str; 57] = [
+    pub const ADDRESS_REUSED: u32 = 57;
+    pub const NAMES: [&str; 58] = [
         "group>=2_collected",
         "group>=3_collected",
         "zero_count_death_with_records",
@@ -129,6 +130,7 @@ pub mod lab {
         "handle_dropped_while_the_thread_is_unwinding",
         "make_mut_on_a_stored_handle",
         "injected_allocation_failure_handled_without_abort",
+        "object_allocated_at_the_address_of_a_released_object",
     ];
 }
 
